@@ -13,6 +13,7 @@ Template directives (lines starting with `//@`):
   //@ loop <k>: <invariant/decreases clauses>  ghost clauses for the k-th loop of the body (`loopopt`: skipped when an optional rewrite did not create the loop)
   //@ before <unique substring> :: <ghost text>   ghost text inserted before that statement line
   //@ after <unique substring> :: <ghost text>
+  //@ block <header> :: <tail>      the unit is one block statement of the function (free variables = the unit's parameters)
   //@ cut_after <marker> :: <text> | cut_from <marker> :: <text>   drop the rest of the body after the marker / from the marker's line on
   <Verus signature with requires/ensures, written from the property>
   //@body                             replaced by `{ <body extracted from /repo, rewritten> }`
@@ -611,6 +612,9 @@ def _parse_lines(lines, path, out):  # list of ('text', str) | ('prelude', width
                 elif key == 'cut_after':
                     a, _, b = val.partition(' :: ')
                     u['cut_after'] = (a, b)
+                elif key == 'block':
+                    a, _, b = val.partition(' :: ')
+                    u['block'] = (a, b)
                 elif key == 'cut_from':
                     a, _, b = val.partition(' :: ')
                     u['cut_from'] = (a, b)
@@ -697,6 +701,23 @@ def generate(template_path, repo, out_path):
             if extract.norm(u['sig']) != item.sig_norm():
                 raise Undecided(f"unit {u['id']}: signature drift (lost anchor): repo has `{item.sig_norm()}`, contract written for `{extract.norm(u['sig'])}`")
             ibody = item.body
+            if u.get('block'):
+                # `//@ block <header> :: <tail>`: the unit is ONE block statement of the function (the unique statement whose header
+                # line is <header>, with its balanced `{ .. }`), followed by <tail>; everything else of the function is dropped.
+                # The unit's signature declares the block's free variables as parameters: the contract is about the block for
+                # ARBITRARY values of them.
+                hdr, tail = u['block']
+                hre = r'\s*'.join(re.escape(tok) for tok in hdr.split())
+                ms = list(re.finditer(hre, ibody))
+                if len(ms) != 1:
+                    raise Undecided(f"unit {u['id']}: block header {hdr!r} matches {len(ms)}x (lost anchor)")
+                ob = ibody.find('{', ms[0].end() - 1)
+                if ob < 0:
+                    raise Undecided(f"unit {u['id']}: block header {hdr!r} has no block (lost anchor)")
+                cb = extract.match_brace(ibody, ob, '{', '}')
+                dropped = len(ibody.strip().splitlines()) - len(ibody[ms[0].start():cb + 1].strip().splitlines())
+                ibody = '\n' + ibody[ms[0].start():cb + 1] + '\n' + tail + '\n'
+                log.append(f"BLOCK in {u['id']}: only the statement `{hdr} {{ .. }}` of {u['fn']} is kept ({dropped} other lines of the function dropped), followed by `{tail.strip()}`")
             for parts in u.get('inline', []):
                 ibody = inline_helper_calls(ibody, u, parts, repo, log)
             body = rewrite_body(ibody, u, log)
